@@ -27,17 +27,10 @@ func g14ReservedProvenance(c *Ctx) {
 	}
 	info := fi.Pkg.TypesInfo
 	var resVar types.Object
-	idx := -1
-	sig := ntm.Fn.Type().(*types.Signature)
-	for i := 0; i < sig.Params().Len(); i++ {
-		if sig.Params().At(i).Name() == "reserved" {
-			idx = i
-		}
-	}
 	ast.Inspect(fi.Decl.Body, func(n ast.Node) bool {
-		if c, ok := n.(*ast.CallExpr); ok && callee(info, c) == ntm.Fn && idx >= 0 && idx < len(c.Args) {
-			if id, ok := c.Args[idx].(*ast.Ident); ok {
-				resVar = info.Uses[id]
+		if c, ok := n.(*ast.CallExpr); ok && callee(info, c) == ntm.Fn {
+			if o := reservedSetArg(info, fi.Decl.Body, ntm.Fn, c); o != nil {
+				resVar = o
 			}
 		}
 		return true
@@ -579,17 +572,10 @@ func g14ReservedBeforeNaming(c *Ctx) {
 	}
 	info := fi.Pkg.TypesInfo
 	var resVar types.Object
-	idx := -1
-	sig := ntm.Fn.Type().(*types.Signature)
-	for i := 0; i < sig.Params().Len(); i++ {
-		if sig.Params().At(i).Name() == "reserved" {
-			idx = i
-		}
-	}
 	ast.Inspect(fi.Decl.Body, func(n ast.Node) bool {
-		if c, ok := n.(*ast.CallExpr); ok && callee(info, c) == ntm.Fn && idx >= 0 && idx < len(c.Args) {
-			if id, ok := c.Args[idx].(*ast.Ident); ok {
-				resVar = info.Uses[id]
+		if c, ok := n.(*ast.CallExpr); ok && callee(info, c) == ntm.Fn {
+			if o := reservedSetArg(info, fi.Decl.Body, ntm.Fn, c); o != nil {
+				resVar = o
 			}
 		}
 		return true
@@ -677,17 +663,10 @@ func g32ReserveDeclared(c *Ctx) {
 	}
 	info := fi.Pkg.TypesInfo
 	var resVar types.Object
-	idx := -1
-	sig := ntm.Fn.Type().(*types.Signature)
-	for i := 0; i < sig.Params().Len(); i++ {
-		if sig.Params().At(i).Name() == "reserved" {
-			idx = i
-		}
-	}
 	ast.Inspect(fi.Decl.Body, func(n ast.Node) bool {
-		if c, ok := n.(*ast.CallExpr); ok && callee(info, c) == ntm.Fn && idx >= 0 && idx < len(c.Args) {
-			if id, ok := c.Args[idx].(*ast.Ident); ok {
-				resVar = info.Uses[id]
+		if c, ok := n.(*ast.CallExpr); ok && callee(info, c) == ntm.Fn {
+			if o := reservedSetArg(info, fi.Decl.Body, ntm.Fn, c); o != nil {
+				resVar = o
 			}
 		}
 		return true
@@ -773,4 +752,74 @@ func g32ReserveDeclared(c *Ctx) {
 	}
 	rep.fail(Finding{Rule: "G32", Key: "G32|reserve-declared|called-names-only", Where: []string{r.pos(fi.Decl.Pos())},
 		Msg: "newPackage reserves only the identifiers the user calls: a function the package declares but only uses as a value (var cmp = deriveEqual_), or any other package-level name, can be handed out as a fresh helper name — goderive exits 0 and the package has two declarations of that name"})
+}
+
+
+// reservedSetArg: the set of reserved names handed to newTypesMap by this call — the argument for the parameter called reserved,
+// or, when the options travel in a struct, the map[string]struct{} value in the composite literal that is passed (directly, or
+// through a local with that literal as its one definition).
+func reservedSetArg(info *types.Info, body ast.Node, ntm *types.Func, c *ast.CallExpr) types.Object {
+	sig := ntm.Type().(*types.Signature)
+	for i := 0; i < sig.Params().Len() && i < len(c.Args); i++ {
+		if sig.Params().At(i).Name() == "reserved" {
+			if id, ok := ast.Unparen(c.Args[i]).(*ast.Ident); ok {
+				return info.Uses[id]
+			}
+		}
+	}
+	isSet := func(t types.Type) bool {
+		m, ok := t.Underlying().(*types.Map)
+		if !ok {
+			return false
+		}
+		st, ok := m.Elem().Underlying().(*types.Struct)
+		kb, isB := m.Key().Underlying().(*types.Basic)
+		return ok && st.NumFields() == 0 && isB && kb.Kind() == types.String
+	}
+	var fromLit func(e ast.Expr, depth int) types.Object
+	fromLit = func(e ast.Expr, depth int) types.Object {
+		e = ast.Unparen(e)
+		if u, ok := e.(*ast.UnaryExpr); ok && u.Op == token.AND {
+			e = ast.Unparen(u.X)
+		}
+		switch x := e.(type) {
+		case *ast.CompositeLit:
+			for _, el := range x.Elts {
+				v := el
+				if kv, ok := el.(*ast.KeyValueExpr); ok {
+					v = kv.Value
+				}
+				if id, ok := ast.Unparen(v).(*ast.Ident); ok {
+					if o := info.Uses[id]; o != nil && isSet(o.Type()) {
+						return o
+					}
+				}
+			}
+		case *ast.Ident:
+			if depth > 2 {
+				return nil
+			}
+			var defs []ast.Expr
+			ast.Inspect(body, func(n ast.Node) bool {
+				if as, ok := n.(*ast.AssignStmt); ok && len(as.Lhs) == len(as.Rhs) {
+					for k, l := range as.Lhs {
+						if lid, ok := l.(*ast.Ident); ok && objOf(info, lid) == info.Uses[x] {
+							defs = append(defs, as.Rhs[k])
+						}
+					}
+				}
+				return true
+			})
+			if len(defs) == 1 {
+				return fromLit(defs[0], depth+1)
+			}
+		}
+		return nil
+	}
+	for _, a := range c.Args {
+		if o := fromLit(a, 0); o != nil {
+			return o
+		}
+	}
+	return nil
 }
